@@ -11,7 +11,8 @@
 (* Symmetry: the texts of GT are interchangeable, so a history must mention  *)
 (* GFirst before any other text of GT.                                       *)
 EXTENDS PersistedQueries, Json
-CONSTANTS MaxLen, GT, GX, GFirst
+CONSTANTS MaxLen, GT, GX, GFirst,
+          FirstRegisters     \* TRUE: only histories that start by registering GFirst (used for the longest bound)
 VARIABLE hist
 
 Rq(ext, q, h, v, pk) == [ext |-> ext, q |-> q, h |-> h, v |-> v, pk |-> pk]
@@ -27,7 +28,8 @@ GenReqs ==
 
 Mentioned(e) == {e.q, e.h} \cap GT
 Seen == UNION {Mentioned(hist[i]) : i \in 1..Len(hist)}
-Canon(e) == IF Seen = {} /\ Mentioned(e) # {} THEN GFirst \in Mentioned(e) ELSE TRUE
+Canon(e) == IF hist = <<>> /\ FirstRegisters THEN e = Rq("ok", GFirst, H(GFirst), 1, "")
+            ELSE IF Seen = {} /\ Mentioned(e) # {} THEN GFirst \in Mentioned(e) ELSE TRUE
 
 GInit == Init /\ hist = <<>>
 GNext == /\ Len(hist) < MaxLen
